@@ -7,6 +7,13 @@ TRUST = ("trusted base: go/types + go/ssa (x/tools v0.50.0), goyacc v0.29.0's LA
          "interface calls that leave the module (Entry, plugins) are opaque")
 
 CHECKS = {
+    "C02": dict(
+        cat="other",
+        text=("Decides the structural facts that make a location path designate the right node in the fork's path engine: the step instruction reads only the local part of a lexed name (a prefix cannot change the node); only the '/' arm of CodePathOper marks a path root-based, it is emitted only by the Root production and Root only begins paths; current() and context-relative evaluation start from a fresh empty path and operand paths are deep copies; each name step and each '..' emits exactly one element, '.' none, and the step list is left-recursive (source order); PredicatesEnd sorts the collected key names before attaching them to the last element, and in [key = operand] the key is the left and the value the right operand's string value; EvalLocPathInternal navigates the path it popped, reads the entry Navigate returned and pushes exactly that value; PREDSTART/PREDEND are balanced and PREDEND resets the per-predicate toggle, whose tests in the step instruction and in EvalLocPath are complementary."),
+        ref="DESIGN.md §4 C02",
+        technique="grammar-action queries + type-resolved AST rules on instruction closures (field-read sets, call order, bracket pairing); shared-state leaks between runs are covered by C06's write/escape analysis",
+        note="Not decided: the behaviour of the predicate counters over whole instruction sequences, nested predicate operands, what a data tree answers; sdcpb path methods are trusted. " + TRUST,
+    ),
     "C06": dict(
         cat="other",
         text=("Establishes from go/ssa that concurrent runs and compilations share no mutable state, which is the premise of the property: (1) Machine, Inst and Symbol fields and []Inst elements are stored only on fresh values inside constructors; (2) for each of the function values that can reach Inst.fn (found at every CodeFn/newInst call site, closures, bound methods and phi-merged closures included) a transitive write/escape summary shows that nothing reachable from a captured variable or bound receiver is written, handed to a mutating or opaque callee, or stored elsewhere, and no package variable is written without the lock; (3) every package-level variable of the xpath packages is read-only after init or is accessed only with mu held in the required mode (exclusive for writes, so a Mutex->RWMutex/RLock weakening is caught); (4) each generated parser allocates its state per call; (5) context constructors share only the program with the machine. Schedules themselves are not explored."),
